@@ -1,3 +1,205 @@
 import BB.Driver.Util
-/-! Placeholder driver for C18 (replaced when the model is built). -/
-def main : IO Unit := BB.Driver.loop (fun (s : Unit) _ => (s, "unimplemented")) ()
+import BB.Model.Auth
+/-!
+Line-protocol driver of the C18 authorization model (`BB.Auth`).
+
+    reset                                       forget leaves and authorizers
+    leaf <id> <default> [<name> <verdict>]...   declare a leaf authorizer: answer per instance name
+                                                verdict: a | d.<tag> | e.<code>.<tag>
+    auth get|put|fm <tree>                      configure one authorizer of the decorator
+                                                tree (prefix): L <id> | A <k> <tree>*k
+    get <n> <b>                                 Get of digest (instance name n, blob b)
+    getc <n> <b> <n'> <b'>                      GetFromComposite parent child
+    put <n> <b>                                 Put
+    fm <k> <n> <b> ...(k pairs) <order...>      FindMissing of k digests; order = the order in which
+                                                the distinct instance names were handed to the authorizer
+    authz get|put|fm <n>...                     Authorize called directly with a batch
+
+Replies: `ok`; for operations
+`backend=<calls|none> result=<fwd|err.<code>.<tag>.<auth|name<n>>|panic> buf=<discards>.<handed> calls=<leaf calls|->`;
+for authz `verdicts=<v,...|-> calls=<...>`; `bad-order` when the order of an `fm` line is not a
+duplicate-free listing of exactly the instance names of its digests; `bad-op` otherwise.
+-/
+open BB.Driver BB.Auth
+
+structure LeafDecl where
+  id : Nat
+  dflt : Verdict
+  table : List (Name × Verdict)
+
+def LeafDecl.beh (l : LeafDecl) : Name → Verdict := fun n =>
+  match l.table.lookup n with
+  | some v => v
+  | none => l.dflt
+
+structure S where
+  leaves : List LeafDecl := []
+  getA : Option Authz := none
+  putA : Option Authz := none
+  fmA : Option Authz := none
+
+def splitDot (s : String) : List String :=
+  let rec go (cs : List Char) (cur : List Char) (acc : List String) : List String :=
+    match cs with
+    | [] => (String.ofList cur.reverse :: acc).reverse
+    | c :: rest => if c == '.' then go rest [] (String.ofList cur.reverse :: acc) else go rest (c :: cur) acc
+  go s.toList [] []
+
+def verdict? (w : String) : Option Verdict :=
+  match splitDot w with
+  | ["a"] => some none
+  | ["d", t] => (nat? t).map fun t => some ⟨permissionDenied, t⟩
+  | ["e", c, t] =>
+    match nat? c, nat? t with
+    | some c, some t => some (some ⟨c, t⟩)
+    | _, _ => none
+  | _ => none
+
+def showVerdict : Verdict → String
+  | none => "a"
+  | some e => if e.isDenial then s!"d.{e.tag}" else s!"e.{e.code}.{e.tag}"
+
+def pairs? : List String → Option (List (Name × Verdict))
+  | [] => some []
+  | [_] => none
+  | n :: v :: rest => do
+    let n ← nat? n
+    let v ← verdict? v
+    let r ← pairs? rest
+    pure ((n, v) :: r)
+
+mutual
+  def parseTree (ls : List LeafDecl) : Nat → List String → Option (Authz × List String)
+    | 0, _ => none
+    | _ + 1, "L" :: id :: rest =>
+      match nat? id with
+      | some id =>
+        match ls.find? (fun l => l.id == id) with
+        | some l => some (.leaf id l.beh, rest)
+        | none => none
+      | none => none
+    | fuel + 1, "A" :: k :: rest =>
+      match nat? k with
+      | some k =>
+        match parseTrees ls fuel k rest with
+        | some (ms, rest') => some (.any ms, rest')
+        | none => none
+      | none => none
+    | _ + 1, _ => none
+  def parseTrees (ls : List LeafDecl) : Nat → Nat → List String → Option (List Authz × List String)
+    | 0, _, _ => none
+    | _ + 1, 0, ws => some ([], ws)
+    | fuel + 1, k + 1, ws =>
+      match parseTree ls fuel ws with
+      | some (m, rest) =>
+        match parseTrees ls fuel k rest with
+        | some (ms, rest') => some (m :: ms, rest')
+        | none => none
+      | none => none
+end
+
+def showNames (ns : List Name) : String := ",".intercalate (ns.map toString)
+
+def showCalls (cs : List (Nat × List Name)) : String :=
+  if cs.isEmpty then "-" else ";".intercalate (cs.map fun c => s!"L{c.1}[{showNames c.2}]")
+
+def showDigest (d : Digest) : String := s!"{d.inst}.{d.blob}"
+
+/-- A digest set prints sorted and without duplicates (what `digest.Set` holds). -/
+def canonSet (ds : List Digest) : String :=
+  let ps := (ds.map fun d => (d.inst, d.blob)).mergeSort
+    (fun a b => a.1 < b.1 || (a.1 == b.1 && a.2 ≤ b.2))
+  if ps.isEmpty then "-" else ",".intercalate (ps.eraseDups.map fun p => s!"{p.1}.{p.2}")
+
+def showCall : BCall → String
+  | .get d => s!"get:{showDigest d}"
+  | .getComposite p c => s!"getc:{showDigest p}/{showDigest c}"
+  | .put d => s!"put:{showDigest d}"
+  | .findMissing ds => s!"fm:{canonSet ds}"
+
+def showResult : Result → String
+  | .forwarded => "fwd"
+  | .denied e .authorization => s!"err.{e.code}.{e.tag}.auth"
+  | .denied e (.instanceName n) => s!"err.{e.code}.{e.tag}.name{n}"
+  | .panic => "panic"
+
+def showOutcome (o : Outcome) : String :=
+  let b := if o.backend.isEmpty then "none" else "+".intercalate (o.backend.map showCall)
+  s!"backend={b} result={showResult o.result} buf={o.discards}.{o.handed} calls={showCalls o.authCalls}"
+
+def S.config? (s : S) (needGet needPut needFm : Bool) : Option Config :=
+  -- an authorizer that is not configured is never consulted by the operation at hand; a
+  -- placeholder keeps `Config` total (the operation's own authorizer is required)
+  let dummy : Authz := .any []
+  match (if needGet then s.getA else some (s.getA.getD dummy)),
+        (if needPut then s.putA else some (s.putA.getD dummy)),
+        (if needFm then s.fmA else some (s.fmA.getD dummy)) with
+  | some g, some p, some f => some ⟨g, p, f⟩
+  | _, _, _ => none
+
+def digests? : Nat → List String → Option (List Digest × List String)
+  | 0, ws => some ([], ws)
+  | k + 1, n :: b :: rest =>
+    match nat? n, nat? b, digests? k rest with
+    | some n, some b, some (ds, rest') => some (⟨n, b⟩ :: ds, rest')
+    | _, _, _ => none
+  | _ + 1, _ => none
+
+def step (s : S) (line : String) : S × String :=
+  match words line with
+  | ["reset"] => ({}, "ok")
+  | "leaf" :: id :: dflt :: rest =>
+    match nat? id, verdict? dflt, pairs? rest with
+    | some id, some d, some t =>
+      if s.leaves.any (fun l => l.id == id) then (s, "bad-op")
+      else ({ s with leaves := ⟨id, d, t⟩ :: s.leaves }, "ok")
+    | _, _, _ => (s, "bad-op")
+  | "auth" :: kind :: tree =>
+    match parseTree s.leaves (tree.length + 1) tree with
+    | some (a, []) =>
+      match kind with
+      | "get" => ({ s with getA := some a }, "ok")
+      | "put" => ({ s with putA := some a }, "ok")
+      | "fm" => ({ s with fmA := some a }, "ok")
+      | _ => (s, "bad-op")
+    | _ => (s, "bad-op")
+  | ["get", n, b] =>
+    match nat? n, nat? b, s.config? true false false with
+    | some n, some b, some c => (s, showOutcome (run c (.get ⟨n, b⟩)))
+    | _, _, _ => (s, "bad-op")
+  | ["getc", n, b, n', b'] =>
+    match nat? n, nat? b, nat? n', nat? b', s.config? true false false with
+    | some n, some b, some n', some b', some c =>
+      (s, showOutcome (run c (.getComposite ⟨n, b⟩ ⟨n', b'⟩)))
+    | _, _, _, _, _ => (s, "bad-op")
+  | ["put", n, b] =>
+    match nat? n, nat? b, s.config? false true false with
+    | some n, some b, some c => (s, showOutcome (run c (.put ⟨n, b⟩)))
+    | _, _, _ => (s, "bad-op")
+  | "fm" :: k :: rest =>
+    match nat? k with
+    | some k =>
+      match digests? k rest, s.config? false false true with
+      | some (ds, orderWs), some c =>
+        match allNats? orderWs with
+        | some order =>
+          let op := Op.findMissing ds order
+          if op.wellFormed then (s, showOutcome (run c op)) else (s, "bad-order")
+        | none => (s, "bad-op")
+      | _, _ => (s, "bad-op")
+    | none => (s, "bad-op")
+  | "authz" :: kind :: ns =>
+    let a? := match kind with
+      | "get" => s.getA
+      | "put" => s.putA
+      | "fm" => s.fmA
+      | _ => none
+    match a?, allNats? ns with
+    | some a, some ns =>
+      let vs := a.authorize ns
+      let v := if vs.isEmpty then "-" else ",".intercalate (vs.map showVerdict)
+      (s, s!"verdicts={v} calls={showCalls (a.calls ns)}")
+    | _, _ => (s, "bad-op")
+  | _ => (s, "bad-op")
+
+def main : IO Unit := loop step {}
